@@ -32,7 +32,7 @@ func checkC19(c *Ctx) *report.Result {
 	r.Rule("S-length", "length clock: disabled or zero => no change; else counter-1, channel off exactly at zero; NRx1 loads 64-t / 256-t")
 	r.Rule("S-seq", "frame sequencer table (length on 0,2,4,6; envelope on 7; sweep on 2,6), step+1, called iff (ticks % 8192)==0, step counter untouched by register writes while powered")
 	r.Rule("S-extra", "NRx4 decision table incl. the extra length clock in the first half of a sequencer period; the four channels agree")
-	r.NotDecided = []string{"'exactly 64-t clocks at 256 Hz' as a count over emulated time (follows from S-length, S-seq and S-extra by arithmetic, not measured)", "NRx4 corner: length-enable already set, counter exactly at its maximum, trigger with length enabled in the first half of a period (the emulator takes the extra clock; hardware documentation reserves it for a reload from zero) - compared between siblings only", "envelope and sweep arithmetic beyond the overflow rule"}
+	r.NotDecided = []string{"'exactly 64-t clocks at 256 Hz' as a count over emulated time (follows from S-length, S-seq and S-extra by arithmetic, not measured)", "envelope and sweep arithmetic beyond the overflow rule"}
 	r.TrustedBase = []string{"documented DMG APU behaviour (property statement, Pan Docs 'obscure behaviour')", "go/ssa, abstract interpreter (intervals, constants, gated joins)"}
 	it := c.W.It
 
@@ -462,13 +462,16 @@ func checkC19(c *Ctx) *report.Result {
 		sw := extra[0].Fn
 		o := chObjs[0]
 		for _, tc := range []struct {
+			shift    int64
 			lo, hi   int64
 			overflow bool
 			what     string
-		}{{1366, 2047, true, "first calculation overflows"}, {911, 1365, true, "repeated calculation overflows"}, {0, 606, false, "no overflow"}} {
+		}{{1, 1366, 2047, true, "first calculation overflows"}, {1, 911, 1365, true, "repeated calculation overflows"}, {1, 0, 606, false, "no overflow"},
+			{0, 1024, 2047, true, "shift 0: the calculation f + f overflows (the frequency is not written back, the check still applies)"}, {0, 0, 1023, false, "shift 0: no overflow"},
+			{7, 2033, 2047, true, "shift 7: first calculation overflows"}, {7, 0, 2000, false, "shift 7: no overflow"}} {
 			var es ai.Sym
 			ev := c.evalCall(nil, sw, []ai.Value{ptrTo(o)}, nil, func(st *ai.State) {
-				c.forceSweepShift(st, o, groups[0], 1, 1)
+				c.forceSweepShift(st, o, groups[0], tc.shift, 1)
 				c.setGroupCell(st, groups[0], "sweepEnabled", ai.NewConstBool(true))
 				c.setGroupCell(st, groups[0], "sweepTimer", ai.NewConstInt(8, false, 1))
 				c.setGroupCell(st, groups[0], "sweepPeriod", ai.NewConstInt(8, false, 1))
@@ -483,7 +486,7 @@ func checkC19(c *Ctx) *report.Result {
 			} else {
 				ok = e != nil && e.B.K == ai.BSrc && e.B.S == es && !e.B.Neg
 			}
-			r.Ob("S-sweep", ok && len(ev.Undecided) == 0, fmt.Sprintf("sweep step, shift 1 upward, shadow frequency in [%d,%d]: %s", tc.lo, tc.hi, tc.what), firstPos(c, sw), fmt.Sprintf("status after: %s %v", ai.ValueString(e), ev.Undecided))
+			r.Ob("S-sweep", ok && len(ev.Undecided) == 0, fmt.Sprintf("sweep step, shift %d upward, shadow frequency in [%d,%d]: %s", tc.shift, tc.lo, tc.hi, tc.what), firstPos(c, sw), fmt.Sprintf("status after: %s %v", ai.ValueString(e), ev.Undecided))
 		}
 	} else {
 		r.Fail("unresolved", "S-sweep", "sweep routine", firstPos(c, seqFn), "steps 2/6 do not add exactly one routine")
@@ -563,6 +566,22 @@ func checkC19(c *Ctx) *report.Result {
 			bad = append(bad[:3], fmt.Sprintf("... %d more", len(bad)-3))
 		}
 		r.Ob("S-length", len(bad) == 0, fmt.Sprintf("channel %d: NRx1 loads %d-t for every t", k+1, maxLen[k]), "", strings.Join(bad, "; "))
+		// ... also while sound is powered off (on the DMG the length counters stay writable then), through the decoder
+		{
+			var badOff []string
+			for _, t := range []int64{0, 1, 17, maxLen[k] - 1} {
+				v := t
+				if k != 2 {
+					v = t | 0x40
+				}
+				ev := c.evalDecoder(true, nrx1[k], nrx1[k], func(st *ai.State) { setB(st, pObj, pPath, false) }, ai.NewConstInt(8, false, v))
+				l := c.cellInt(ev.Post, o, lenPath)
+				if cv, isc := constOf(l); l == nil || !isc || cv != maxLen[k]-t {
+					badOff = append(badOff, fmt.Sprintf("t=%d loads %s, documented %d", t, ai.ValueString(l), maxLen[k]-t))
+				}
+			}
+			r.Ob("S-length", len(badOff) == 0, fmt.Sprintf("channel %d: NRx1 written while sound is off still loads the length counter", k+1), "", strings.Join(badOff, "; "))
+		}
 
 		lenPaths[k] = lenPath
 		// ---- S-extra for this channel
@@ -628,6 +647,8 @@ func checkC19(c *Ctx) *report.Result {
 		}
 		delete(r.Extra, "nrx4_tables")
 	}
+	r.Rule("S-step", "the audio unit is stepped once per machine cycle by the frame loop and its step clocks the per-clock routine exactly four times, unconditionally (L2, L4 of C26 re-stated): the 256 Hz length clock is a clock of emulated time")
+	adopt(r, c.sibling("C26"), map[string]string{"L2": "S-step", "L4": "S-step"}, "an audio step that is skipped or shortened in some machine state shifts the length clock against emulated time")
 	return r
 }
 
@@ -740,13 +761,13 @@ func (c *Ctx) checkNRx4Table(r *report.Result, k int, o *ai.Object, addr int, ma
 							}
 							corner := false
 							if trig == 1 {
+								// a trigger reloads the counter only from zero; the reload (and nothing else) earns the
+								// extra clock when length is enabled at an odd sequencer step
 								if wl == 0 && wh == 0 {
 									wl, wh = max, max
 									if newLE == 1 && odd == 1 {
 										wl, wh = max-1, max-1
 									}
-								} else if wl == max && newLE == 1 && odd == 1 {
-									corner = true // see not_decided
 								}
 							}
 							lenOK := l != nil && ((wl == wh && l.Lo == wl && l.Hi == wl) || (wl != wh && l.HasBase && l.Base == ls && l.Off == wl-lc.lo))
